@@ -892,6 +892,38 @@ class Reach:
             # a &mut borrow of a flag passed to a call could change it: conservatively forget
         return val
 
+    def _refine(self, l, val):
+        """(raw phi term, raw term of the single non-constant definition) of the flag local behind switch operand `l`, or None"""
+        if not hasattr(self, '_refine_cache'):
+            self._refine_cache = {}
+        fn = self.fn
+        defs = fn.defs()
+        src = l
+        for _ in range(3):
+            ds = defs.get(src, [])
+            if len(ds) == 1 and ds[0][2] == 'assign' and ds[0][3][0] == 'use' and ds[0][3][1][0] in ('c', 'm') and isinstance(ds[0][3][1][1], int):
+                src = ds[0][3][1][1]
+            else:
+                break
+        if src in val or src not in self.flags:
+            return None
+        if src in self._refine_cache:
+            return self._refine_cache[src]
+        out = None
+        ds = defs.get(src, [])
+        consts = [d for d in ds if d[2] == 'assign' and d[3][0] == 'use' and d[3][1][0] == 'k']
+        others = [d for d in ds if d not in consts]
+        if consts and len(others) == 1:
+            try:
+                whole = fn.term_local(src)
+                alt = fn.term_def(others[0], 0)
+                if whole.startswith('phi(') and alt and alt in whole and alt != whole:
+                    out = (whole, alt)
+            except Exception:
+                out = None
+        self._refine_cache[src] = out
+        return out
+
     def run(self, edge_ok=None, start=0, start_val=None, stop_at=None):
         """BFS; returns dict bb -> set of frozenset valuations reached at block ENTRY.
         edge_ok(bb, succ, props) -> False removes the edge."""
@@ -928,6 +960,12 @@ class Reach:
             elif t[0] == 'switch' and t[4] == 'bool' and t[1][0] in ('c', 'm') and isinstance(t[1][1], int) and t[1][1] in self.multi:
                 learn = t[1][1]
             props = fn.edge_props(bb) if t[0] == 'switch' else {}
+            if props and edge_ok is not None and len(succs) > 1 and t[1][0] in ('c', 'm') and isinstance(t[1][1], int) and t[1][1] not in val:
+                # the tested flag is a merge of constants and ONE computed value, and on this path it holds no known constant:
+                # it holds the computed value - state the edge propositions about that value instead of about phi(const|value)
+                ref = self._refine(t[1][1], val)
+                if ref:
+                    props = {s_: [p_.replace(ref[0], ref[1]) for p_ in ps_] for s_, ps_ in props.items()}
             for s in succs:
                 if fn.blocks[s]['cleanup']:
                     continue
